@@ -65,4 +65,12 @@ def originKeyPerConn : Bool := true
     never released). -/
 def originOnlyRequests : Bool := true
 
+/-- ThreadingApplication: the queue consumers survive a `NotRoutable` from
+    `send_answer` (false on the pinned tree: the consumer thread died). -/
+def appConsumersCatch : Bool := true
+
+/-- ThreadingApplication: a handler that returns `None` still gives its slot
+    back (false on the pinned tree). -/
+def slotAlwaysReturned : Bool := true
+
 end DV.Config
